@@ -1391,6 +1391,10 @@ private:
       return;
     }
 
+    // report dropped messages / blocking occurrences before a context is removed, otherwise the
+    // failure counter of a thread that has exited is lost together with its context
+    _check_failure_counter(_options.error_notifier);
+
     auto find_invalid_and_empty_thread_context_callback = [](ThreadContext* thread_context)
     {
       // If the thread context is invalid it means the thread that created it has now died.
